@@ -179,13 +179,25 @@ class RefClient:
         self.deflate = None
         self._consumed = 0  # bytes of session.wire already given to the decoder
         self.decoder = None
+        self.error = None  # why the handshake response is unacceptable (a verdict about the tree under test, never an exception)
 
     async def handshake(self, segs=None):
         await self.session.send(self.request, segs)
-        self.head = parse_head(self.session.wire)
-        if self.head is None or self.head.code != 101:
+        try:
+            self.head = parse_head(self.session.wire)
+        except wsref.RefError as e:
+            self.error = "malformed response head: %s" % e
             return False
-        self.deflate = negotiated_deflate(self.head)
+        if self.head is None or self.head.code != 101:
+            self.error = "no 101 response"
+            return False
+        try:
+            self.deflate = negotiated_deflate(self.head)
+        except wsref.RefError as e:
+            # a 101 whose Sec-WebSocket-Extensions the reference cannot accept (unknown extension, invalid or
+            # repeated parameter, bad value): a conforming client fails the connection here
+            self.error = "extension response invalid: %s" % e
+            return False
         self.decoder = wsref.Decoder(expect_masked=False,
                                      inflater=self.deflate.inflater("server") if self.deflate else None)
         self._consumed = len(self.session.wire) - len(self.head.rest)
@@ -368,7 +380,10 @@ class RefServer:
         s = self.client.stream
         if s is None:
             return None
-        self.req_head = parse_head(bytes(s.wire))
+        try:
+            self.req_head = parse_head(bytes(s.wire))
+        except wsref.RefError:
+            self.req_head = None     # the client wrote something that is not an HTTP request head
         return self.req_head
 
     def response(self, ext=None, accept=None, protocol=None, status="101 Switching Protocols",
@@ -465,8 +480,11 @@ class Pair:
     def split_logs(self):
         """(client head, client frame bytes, server head, server frame bytes) from everything sent so far."""
         self.wire.collect()
-        ch = parse_head(bytes(self.wire.log_a))
-        sh = parse_head(bytes(self.wire.log_b))
+        try:
+            ch = parse_head(bytes(self.wire.log_a))
+            sh = parse_head(bytes(self.wire.log_b))
+        except wsref.RefError:
+            return None, b"", None, b""
         return ch, (ch.rest if ch else b""), sh, (sh.rest if sh else b"")
 
 
